@@ -28,12 +28,15 @@ const (
 	AConst
 	ANil
 	ANonNil
+	// AStruct: a struct value whose fields (by index) are known as far as S says
+	AStruct
 )
 
 // AVal is an abstract value.
 type AVal struct {
 	K AKind
 	C constant.Value
+	S map[int]AVal // AStruct only
 }
 
 func (a AVal) String() string {
@@ -44,18 +47,20 @@ func (a AVal) String() string {
 		return "nil"
 	case ANonNil:
 		return "non-nil"
+	case AStruct:
+		return "struct"
 	}
 	return "?"
 }
 
 // Bool builds a constant boolean value.
-func ABool(b bool) AVal { return AVal{AConst, constant.MakeBool(b)} }
+func ABool(b bool) AVal { return AVal{K: AConst, C: constant.MakeBool(b)} }
 
 // AInt builds a constant integer value.
-func AInt(i int64) AVal { return AVal{AConst, constant.MakeInt64(i)} }
+func AInt(i int64) AVal { return AVal{K: AConst, C: constant.MakeInt64(i)} }
 
 // AStr builds a constant string.
-func AStr(s string) AVal { return AVal{AConst, constant.MakeString(s)} }
+func AStr(s string) AVal { return AVal{K: AConst, C: constant.MakeString(s)} }
 
 // IsBool reports a known boolean.
 func (a AVal) IsBool() (bool, bool) {
@@ -149,6 +154,9 @@ type Explorer struct {
 	MaxPaths  int
 	Steps     int // blocks entered so far (bounded by 5×MaxPaths)
 	Exhausted bool
+	// SyncGo, when set, names go statements that are explored as if they were calls: the goroutine's
+	// completion is awaited by the starter on every path (established by the caller of the explorer)
+	SyncGo func(g *ssa.Go) bool
 	// ResolveCallee, when set, may name the function a dynamic call goes to on this path
 	// (a rule that seeded the key of a constant registry knows which entry is called).
 	ResolveCallee func(c *ssa.CallCommon, st *State) *ssa.Function
@@ -212,7 +220,7 @@ func (s *State) Eval(v ssa.Value) AVal {
 			}
 			return AVal{}
 		}
-		return AVal{AConst, x.Value}
+		return AVal{K: AConst, C: x.Value}
 	case *ssa.Function, *ssa.MakeClosure, *ssa.Alloc, *ssa.MakeMap, *ssa.MakeSlice, *ssa.MakeChan, *ssa.MakeInterface:
 		if mi, ok := x.(*ssa.MakeInterface); ok {
 			inner := s.Eval(mi.X)
@@ -254,6 +262,25 @@ func (s *State) Eval(v ssa.Value) AVal {
 			}
 		case token.MUL:
 			cell := x.X
+			// the whole value of a struct local: what is known about its fields
+			if a, ok := cell.(*ssa.Alloc); ok {
+				if stt, ok := Deref(a.Type()).Underlying().(*types.Struct); ok {
+					out := AVal{K: AStruct, S: map[int]AVal{}}
+					base := Prov(a)
+					for i := 0; i < stt.NumFields(); i++ {
+						if fv, ok := s.fields[base+"."+stt.Field(i).Name()]; ok && fv.K != AUnknown {
+							out.S[i] = fv
+						}
+					}
+					if len(out.S) > 0 {
+						return out
+					}
+					if c, ok := s.cells[cell]; ok && c.K == AStruct {
+						return c
+					}
+					return AVal{}
+				}
+			}
 			if c, ok := s.cells[cell]; ok {
 				return c
 			}
@@ -272,6 +299,12 @@ func (s *State) Eval(v ssa.Value) AVal {
 		}
 	case *ssa.BinOp:
 		return evalBin(x.Op, s.Eval(x.X), s.Eval(x.Y))
+	case *ssa.Field:
+		if sv := s.Eval(x.X); sv.K == AStruct {
+			if fv, ok := sv.S[x.Field]; ok {
+				return fv
+			}
+		}
 	}
 	return AVal{}
 }
@@ -302,7 +335,7 @@ func evalBin(op token.Token, a, b AVal) AVal {
 			}
 		case token.ADD, token.SUB, token.MUL, token.AND, token.OR:
 			if isNum(a.C) && isNum(b.C) || (op == token.ADD && a.C.Kind() == constant.String && b.C.Kind() == constant.String) {
-				return AVal{AConst, constant.BinaryOp(a.C, op, b.C)}
+				return AVal{K: AConst, C: constant.BinaryOp(a.C, op, b.C)}
 			}
 		}
 		return AVal{}
@@ -475,6 +508,18 @@ func (e *Explorer) instrs(fn *ssa.Function, b *ssa.BasicBlock, from int, st *Sta
 			switch a := x.Addr.(type) {
 			case *ssa.Alloc:
 				st.cells[a] = val
+				// a whole struct value put into a local: its fields are what the value says
+				if stt, ok := Deref(a.Type()).Underlying().(*types.Struct); ok {
+					base := Prov(a)
+					for i := 0; i < stt.NumFields(); i++ {
+						key := base + "." + stt.Field(i).Name()
+						if fv, ok := val.S[i]; ok && val.K == AStruct && fv.K != AUnknown {
+							st.fields[key] = fv
+						} else {
+							delete(st.fields, key)
+						}
+					}
+				}
 			case *ssa.FreeVar:
 				if bnd := freeVarBinding(a); bnd != nil {
 					st.cells[bnd] = val
@@ -541,6 +586,14 @@ func (e *Explorer) instrs(fn *ssa.Function, b *ssa.BasicBlock, from int, st *Sta
 				st.fields = map[string]AVal{}
 			}
 		case *ssa.Go:
+			if e.SyncGo != nil && e.SyncGo(x) {
+				if callee := e.inlinable(&x.Call, st); callee != nil {
+					e.inlineV(callee, x, &x.Call, st, func(st2 *State, ret []AVal, rvals []ssa.Value) {
+						e.instrs(fn, b, i+1, st2, emit)
+					}, emit)
+					return
+				}
+			}
 			e.effect(in, st)
 		case *ssa.If:
 			c := st.Eval(x.Cond)
@@ -706,6 +759,12 @@ func (e *Explorer) inlineV(callee *ssa.Function, site ssa.Instruction, c *ssa.Ca
 				delete(st2.env, v)
 				if a, ok := in.(*ssa.Alloc); ok {
 					delete(st2.cells, a)
+					if stt, ok := Deref(a.Type()).Underlying().(*types.Struct); ok {
+						base := Prov(a)
+						for i := 0; i < stt.NumFields(); i++ {
+							delete(st2.fields, base+"."+stt.Field(i).Name())
+						}
+					}
 				}
 			}
 		}
